@@ -186,7 +186,9 @@ func (s *srcSession) Open(ctx context.Context, req pconnector.SourceOpenRequest)
 	}
 	// like the SDK: the last position is the last record read in THIS session
 	s.lastSent = -1
+	s.mu.Lock()
 	s.opened = true
+	s.mu.Unlock()
 	s.st.p.Log.Append(e)
 	return pconnector.SourceOpenResponse{}, nil
 }
@@ -388,15 +390,16 @@ func (s *srcSession) Teardown(ctx context.Context, _ pconnector.SourceTeardownRe
 		}
 	}
 	e := Ev{Kind: KSrcTeardown, Comp: s.st.ID, Role: "src", Sess: s.sess}
-	if !s.opened {
+	s.mu.Lock()
+	wasOpened := s.opened
+	s.stopped = true
+	s.mu.Unlock()
+	if !wasOpened {
 		e.Note = "never-opened"
 	}
 	if err != nil {
 		e.Err = err.Error()
 	}
-	s.mu.Lock()
-	s.stopped = true
-	s.mu.Unlock()
 	s.st.p.Log.Append(e)
 	return pconnector.SourceTeardownResponse{}, err
 }
@@ -491,7 +494,7 @@ func (sc *DstScript) Rejects(dstID string, l Lin) bool {
 type dstSession struct {
 	st     *DstState
 	sess   int
-	opened bool
+	opened atomic.Bool
 }
 
 func (s *dstSession) callErr(call string) error {
@@ -536,7 +539,7 @@ func (s *dstSession) Open(ctx context.Context, _ pconnector.DestinationOpenReque
 	if err != nil {
 		e.Err = err.Error()
 	} else {
-		s.opened = true
+		s.opened.Store(true)
 	}
 	s.st.p.Log.Append(e)
 	return pconnector.DestinationOpenResponse{}, err
@@ -777,7 +780,7 @@ func (s *dstSession) Teardown(ctx context.Context, _ pconnector.DestinationTeard
 	defer s.st.p.leave()
 	err := s.callErr("Teardown")
 	e := Ev{Kind: KDstTeardown, Comp: s.st.ID, Role: s.st.Role, Sess: s.sess}
-	if !s.opened {
+	if !s.opened.Load() {
 		e.Note = "never-opened"
 	}
 	if err != nil {
